@@ -16,7 +16,7 @@ LEVEL_TEXT = (
     'arguments as its loud sibling — however dispatch and filtering are organised into functions; R3/R4 are evaluated '
     'on the public Client::handle with its private steps inlined, one round of the loop per path: a decoded request '
     'is dispatched exactly once (QuitQuietly: zero times), its response is written exactly once when there is one and '
-    'never otherwise, nothing reachable from the connection task spawns or joins concurrent work; QuitQuietly -> '
+    'never otherwise, nothing reachable from the connection task (handler and store included) spawns, joins or queues work for another task or thread (any spawn*/join*/channel callee); QuitQuietly -> '
     'shutdown and the task ends, nothing executed or written; a Quit response -> written, then shutdown, the task '
     'ends; any other response keeps the loop going; a failed write ends the task; R5 MemcacheBinaryConnection::write '
     'returns success only after the whole encoded response was written to the socket. Not decided: TCP delivering the '
@@ -94,7 +94,8 @@ def r2(ctx):
     rep.exhaustive = True
     quiet_of = {q: (l, flt) for l, (q, flt) in dispatch.QUIET_OF.items()}
     cm = dispatch.command_methods(ctx)
-    rep.check(len(cm) >= 8, "command-methods", "%d BinaryHandler methods talk to the storage" % len(cm), "only %d BinaryHandler methods call the storage (8 confirmed)" % len(cm), hb.loc())
+    n_cmd = sum(1 for _v, row_ in rt.items() if any(cc for cc in row_["success"]["calls"]))
+    rep.check(n_cmd >= 22, "command-methods", "%d request variants are executed by a storage command (%d handler methods talk to the storage)" % (n_cmd, len(cm)), "only %d request variants reach a storage command (22 confirmed: get x4, and set/add/replace/append/prepend/delete/incr/decr/flush x2)" % n_cmd, hb.loc())
     for variant, row in rt.items():
         has_cmd = any(cc for cc in row["success"]["calls"])
         bad = []
@@ -294,10 +295,7 @@ def r3(ctx):
     rep.check(n_resp > 0 and n_noresp > 0 and n_qq > 0, "handle_request:cases", "paths for: response, no response, quitq", "the connection task lacks a path for one of {response, no response, quitq} (%d/%d/%d)" % (n_resp, n_noresp, n_qq), b.loc())
     # sequential: no spawn/join/select reachable from the connection task
     cg = callgraph.get(ctx)
-    conc = ("tokio::spawn", "tokio::task::spawn", "tokio::task::spawn::spawn", "tokio::task::spawn_local", "tokio::task::spawn_blocking", "futures::future::join", "futures_util::future::join", "tokio::task::JoinSet", "std::thread::spawn", "futures_util::stream::futures_unordered")
-
-    def is_conc(name, t=None):
-        return any(name.startswith(c) for c in conc) or "::join_all" in name or "FuturesUnordered" in name or name.endswith("::spawn")
+    from rules.conntask import is_deferral as is_conc
 
     w = cg.may_reach_ext(HL, is_conc)
     rep.check(w is None, "sequential:handle", "no concurrent work started from the connection task", "the connection task can start concurrent work (%s): requests of one connection may be executed or answered out of order" % (" -> ".join(w) if w else ""), safe_loc(f, HL))
